@@ -66,6 +66,12 @@ func VerifC15Reply() {
 	if !answeredByOdd {
 		verifapi.Assert(err == nil && got == tok, "c15.call-still-gets-its-reply-after-odd-message")
 	}
+	if err != nil {
+		// whatever error a call returns is one its caller can use: callers print it and ask it for its
+		// code (jsonrpc2.IsErrorCode does, in the agent and in the pool)
+		_ = err.Error()
+		_ = IsErrorCode(err, ErrCodeMethodNotFound, ErrCodeInvalidParams)
+	}
 	verifapi.Assert(codec.pos == 2, "c15.read-loop-continues-after-odd-message")
 	// every request got a well-formed reply carrying its own id
 	for _, w := range codec.written {
